@@ -156,3 +156,99 @@ def bitmap_flips(data, L):
     for o in L.bitmap:
         for bit in range(8):
             yield 'bitflip@%d.%d' % (o, bit), data[:o] + bytes([data[o] ^ (0x80 >> bit)]) + data[o + 1:]
+
+
+# ---------------------------------------------------------------------------------------------------------------------
+# C08: neighbours of the valid language
+# ---------------------------------------------------------------------------------------------------------------------
+def prefix_digit_replacements(data, L, enc):
+    """Every length-prefix digit replaced by sign, space, underscore, letter, every decimal digit and non-ASCII digits."""
+    from . import gen
+    rep = gen.repertoire(enc)
+    odd = [c for c in rep if c.isdigit() and c not in '0123456789'][:12]
+    chars = list('-+ _x0123456789') + odd
+    for bit, a, w, n, end in L.prefixes:
+        for k in range(w):
+            for ch in chars:
+                try:
+                    raw = ch.encode(enc)
+                except UnicodeError:
+                    continue
+                if len(raw) == 1 and raw[0] != data[a + k]:
+                    yield 'prefixdigit:DE%d[%d]=%r' % (bit, k, ch), data[:a + k] + raw + data[a + k + 1:]
+
+
+def prefix_rewrites(data, L, enc):
+    for bit, a, w, n, end in L.prefixes:
+        remain = L.total - (a + w)
+        vals = {0, n - 1, n + 1, remain, remain + 1, L.total, 10 ** w - 1, max(0, remain - 1)}
+        words = ['%0*d' % (w, v) for v in sorted(vals) if 0 <= v < 10 ** w]
+        words += NEG_2 if w == 2 else NEG_3[:99]
+        for word in words:
+            raw = word.encode(enc)
+            if len(raw) == w and raw != data[a:a + w]:
+                yield 'prefix:DE%d:=%r' % (bit, word), sub(data, a, raw)
+
+
+def logical_bitmap_flips(data, L, hex_bitmap):
+    """Each of the 128 bitmap bits flipped, whatever the rendering."""
+    if hex_bitmap:
+        bm = bytearray(bytes.fromhex(data[4:36].decode('ascii')))
+    else:
+        bm = bytearray(data[4:20])
+    for bit in range(1, 129):
+        b2 = bytearray(bm)
+        b2[(bit - 1) // 8] ^= 0x80 >> ((bit - 1) % 8)
+        head = bytes(b2).hex().encode('ascii') if hex_bitmap else bytes(b2)
+        yield 'bitmapbit:%d' % bit, data[:4] + head + data[L.header:]
+
+
+def zero_length_fields(data, L, enc):
+    """Each variable element emptied: prefix of zeros, no content - still a well-framed message."""
+    for bit, a, w, n, end in L.prefixes:
+        yield 'zero_length:DE%d' % bit, data[:a] + ('0' * w).encode(enc) + data[end:]
+
+
+def edge_trims(data):
+    for k in (1, 2, 3):
+        yield 'truncate-%d' % k, data[:-k]
+        yield 'extend+%d' % k, data + b'0' * k
+        yield 'extend+%dsp' % k, data + b' ' * k
+
+
+def bitmap_for(bits, hex_bitmap):
+    bm = bytearray(16)
+    bm[0] |= 0x80
+    for bit in bits:
+        bm[(bit - 1) // 8] |= 0x80 >> ((bit - 1) % 8)
+    return bytes(bm).hex().encode('ascii') if hex_bitmap else bytes(bm)
+
+
+def constructed_overlaps(cfg, enc, hex_bitmap, mti='1240'):
+    """
+    Messages that a decoder which tolerates a negative length would accept as a complete tiling:
+    for a variable text element e, a fixed text element f after it in bit order, optionally a fixed element p before it,
+    and every negative value -k the prefix can spell:  bytes(p) | prefix(-k) | (width(f) - k) filler bytes.
+    """
+    bits = sorted(int(b) for b in cfg if 2 <= int(b) <= 127)
+    var = [b for b in bits if cfg[str(b)]['field_type'] in ('LLVAR', 'LLLVAR') and not cfg[str(b)].get('field_python_type')
+           and cfg[str(b)].get('field_processor') in (None, 'DE43')]
+    fixed = [b for b in bits if cfg[str(b)]['field_type'] == 'FIXED' and not cfg[str(b)].get('field_python_type')
+             and not cfg[str(b)].get('field_processor')]
+    for e in var:
+        w = 2 if cfg[str(e)]['field_type'] == 'LLVAR' else 3
+        words = ['-%d' % k for k in range(1, 10)] if w == 2 else ['-%02d' % k for k in range(1, 100)]
+        for f in fixed:
+            if f <= e:
+                continue
+            fw = cfg[str(f)]['field_length']
+            for p in [None] + [x for x in fixed if x < e][:2]:
+                pw = cfg[str(p)]['field_length'] if p else 0
+                for word in words:
+                    k = -int(word)
+                    if fw - k < 0 or (k > w and k - w > pw):
+                        continue
+                    body = ('P' * pw + word + 'F' * (fw - k)).encode(enc)
+                    present = [x for x in (p, e, f) if x]
+                    yield ('overlap:DE%d%s->DE%d:%s' % (e, '(after DE%d)' % p if p else '', f, word),
+                           mti.encode(enc) + bitmap_for(present, hex_bitmap) + body)
